@@ -76,6 +76,7 @@ type GenOpts struct {
 	LongChains   bool // allow chains of 5-8 rarely declining transforms
 	Geometry     bool // allow the special batch geometries (many blocks / big blocks)
 	LegacyWriter bool // let a sixth of the streams be written by the pinned reference encoder
+	BigBWT       bool // a few streams with BWT blocks above 4 MiB (helper goroutines of the inverse)
 }
 
 func jobsDraw(t *sim.Tape, max int) int {
@@ -351,7 +352,8 @@ func GenData(shape string, n int, seed uint64) []byte {
 			}
 		}
 	case "smallalpha":
-		k := 2 + r.Intn(14)
+		// alphabet sizes around the powers of two that packing codecs switch on (2, 4, 16), and others
+		k := []int{2, 3, 4, 5, 8, 15, 16, 16, 17, 2 + r.Intn(30)}[r.Intn(10)]
 		for len(b) < n {
 			b = append(b, byte('a'+r.Intn(k)))
 		}
